@@ -137,7 +137,7 @@ def families(quick):
     la, lb, lc = (3, 3, 3) if quick else (5, 4, 4)
     fam = []
     for base in ([65530, 0] if quick else [65530, 0, 32760, 2]):
-        fam.append(("seq-%d" % base, {"NS": 1, "Base": base, "L": la, "SeqD": ALL_SEQ, "ClkA": "{1}", "ClkB": "{0}",
+        fam.append(("seq-%d" % base, {"NS": 1, "Base": base, "L": la if base in (65530, 0) else la - 1, "SeqD": ALL_SEQ, "ClkA": "{1}", "ClkB": "{0}",
                                       "Sizes": "{1200, 26, 28}", "PastSizes": "{}", "Jump": 0}))
     fam.append(("clock", {"NS": 1, "Base": 100, "L": lb, "SeqD": "{1, 0}", "ClkA": "{0, 125}", "ClkB": ALL_CLK,
                           "Sizes": "{1200}", "PastSizes": "{1200}", "Jump": 0}))
